@@ -426,7 +426,7 @@ func baseToNumber(L *LState) int {
 			} else {
 				L.Push(v)
 			}
-		} else if v, err := strconv.ParseInt(str, base, LNumberBit); err != nil {
+		} else if v, err := strconv.ParseInt(trimHexPrefix(str, base), base, LNumberBit); err != nil {
 			L.Push(LNil)
 		} else {
 			L.Push(LNumber(v))
@@ -435,6 +435,19 @@ func baseToNumber(L *LState) int {
 		L.Push(LNil)
 	}
 	return 1
+}
+
+// trimHexPrefix drops the 0x / 0X that strtoul accepts after the optional sign when the base is 16.
+func trimHexPrefix(str string, base int) string {
+	i := 0
+	if len(str) > 0 && (str[0] == '+' || str[0] == '-') {
+		i = 1
+	}
+	if base == 16 && len(str) > i+2 && str[i] == '0' && (str[i+1] == 'x' || str[i+1] == 'X') &&
+		str[i+2] != '+' && str[i+2] != '-' {
+		return str[:i] + str[i+2:]
+	}
+	return str
 }
 
 func baseToString(L *LState) int {
